@@ -39,7 +39,7 @@ if __name__ == "__main__":
     allfired = True
     for p, (rc, out) in res.items():
         print("=== %s rc=%d" % (p, rc))
-        print(out[-3500:])
+        print(out[-20000:])
         if rc != 1:
             allfired = False
     sys.exit(0 if allfired else 1)
